@@ -16,6 +16,9 @@ def seeded():
         m = json.load(open(d))
         name = os.path.basename(os.path.dirname(d))
         conf = m.get('confirmation', {})
+        if m.get('revalidated', {}).get('checks'):
+            # the latest run of the current checks against this change
+            conf = dict(conf, checks=m['revalidated']['checks'], caught_by=m['revalidated'].get('caught_by', []))
         caught = conf.get('caught_by', [])
         later = m.get('caught_after_strengthening')
         kinds = []
@@ -35,7 +38,7 @@ def seeded():
             res = m['not_caught_reason']
         rows.append('| %s | %s | %s | %s | %s |' % (name, summ, needs, res, ', '.join(kinds[:3])))
     out = ['**Seeded defects (all pass the existing suite; %d confirmed).**' % len(rows), '',
-           '| seeded | change | needs, to manifest | caught by (quick tier) | violation kinds |', '|---|---|---|---|---|'] + rows
+           '| seeded | change | needs, to manifest | caught by (quick tier, current checks) | violation kinds |', '|---|---|---|---|---|'] + rows
     mr = '/verif/mutants/results.json'
     if os.path.exists(mr):
         res = json.load(open(mr))
@@ -51,6 +54,8 @@ def equivalents():
         m = json.load(open(d))
         name = os.path.basename(os.path.dirname(d))
         ev = m.get('evaluation', {})
+        if m.get('revalidated', {}).get('checks'):
+            ev = dict(ev, checks=m['revalidated']['checks'], alarms=m['revalidated'].get('alarms', []))
         al = ev.get('alarms', [])
         alarms += len(al)
         summ = re.sub(r'\s+', ' ', m.get('summary', '')).replace('|', '/')
